@@ -8217,6 +8217,12 @@ eval_name_test_with_predicate(const struct lyxp_expr *exp, uint32_t *tok_idx, en
         goto moveto;
     }
 
+    if (!(options & LYXP_SCNODE_ALL) && (set->type != LYXP_SET_NODE_SET)) {
+        LOGVAL(set->ctx, LY_VCODE_XP_INOP_1, "path operator", print_set_type(set));
+        rc = LY_EVALID;
+        goto cleanup;
+    }
+
     /* parse (and skip) module name */
     rc = moveto_resolve_model(&ncname, &ncname_len, set, NULL, &moveto_mod);
     LY_CHECK_GOTO(rc, cleanup);
